@@ -645,7 +645,7 @@ def run_script(script):
                 if op[1] in ('ev', 'pre'):
                     ev = LoggedObservable(rid)
                     if op[1] == 'pre':
-                        ev.Set(True)
+                        rt.fire_deadline(ev)
                     msg.properties[Deadline.EVENT_KEY] = ev
                 stream = BytesIO()
                 stream.write(pack('!i', rid))
@@ -665,7 +665,7 @@ def run_script(script):
                 k = op[1]
                 if k < len(reqs) and reqs[k]['ev'] is not None and not reqs[k]['fired']:
                     reqs[k]['fired'] = True
-                    reqs[k]['ev'].Set(True)
+                    rt.fire_deadline(reqs[k]['ev'])
                     emit(['fire', k])
             elif kind in ('ans', 'peer'):
                 if kind == 'ans':
